@@ -870,6 +870,10 @@ void tickit_window_flush(TickitWindow *win)
     root->hierarchy_changes = NULL;
   }
 
+  /* An expose handler may drop the last reference to the root; it is still used
+   * below, after the handlers have run */
+  tickit_window_ref(win);
+
   if(root->needs_expose) {
     root->needs_expose = false;
 
@@ -913,6 +917,8 @@ void tickit_window_flush(TickitWindow *win)
     root->needs_restore = false;
     _do_restore(root);
   }
+
+  tickit_window_unref(win);
 }
 
 static TickitWindow **_find_child(TickitWindow *parent, TickitWindow *win)
